@@ -1,4 +1,456 @@
-import VermouthModel.C12
+import VermouthProofs.C12_Pool
+/-!
+# C12 — editing a molecule keeps atoms, bonds and interactions consistent
+
+Property theorems about the pool state machine `C12.step` / `C12.run`, the model of the editing
+API of `vermouth.molecule.Molecule` (`lean/VermouthModel/C12.lean`).  Only top-level statements
+and non-vacuity examples live here; helper lemmas are in `VermouthProofs/C12*.lean`.
+
+Vocabulary (all executable definitions):
+* `Mol.Inv m`        : the invariant (spelled out by `inv_iff`); `PoolInv p` = every member satisfies it;
+* `Op.target op`     : the pool index an operation edits in place, `none` for copy / subgraph /
+                       newMol / fromBlock (they only append a new member);
+* `Mol.offset self`  : key offset of a merge = highest key of `self`, 0 if `self` has no node;
+* `Mol.shiftBy self` : (resid, charge group) of that highest-key node (default 1 each), (0, 0) if empty;
+* `corr keys off k`  : `off + 1 + position of k in keys` – the new key of the newcomer's node `k`;
+* `Attrs.shift a r c`: resid := a.resid (default 1) + r, cg := a.cg (default 1) + c, name unchanged.
+-/
 namespace C12
-theorem placeholder : True := trivial
+
+/-! ## 1. The invariant -/
+
+/-- what `Mol.Inv` says -/
+theorem inv_iff (m : Mol) :
+    m.Inv ↔
+      m.keys.Nodup ∧
+      (∀ e ∈ m.edges, e.1 ∈ m.keys ∧ e.2 ∈ m.keys) ∧
+      (∀ ti ∈ m.inters, ∀ a ∈ ti.2.atoms, a ∈ m.keys) ∧
+      (m.nodes ≠ [] → ∀ k, m.maxNode = some k → maxKey m.keys = some k) := by
+  unfold Mol.Inv Mol.Wf Mol.CacheOk
+  constructor
+  · rintro ⟨⟨a, b, c⟩, d⟩; exact ⟨a, b, c, d⟩
+  · rintro ⟨a, b, c, d⟩; exact ⟨⟨a, b, c⟩, d⟩
+
+/-- `maxKey` is the highest key -/
+theorem maxKey_spec (l : List Int) (k : Int) : maxKey l = some k ↔ k ∈ l ∧ ∀ x ∈ l, x ≤ k :=
+  maxKey_eq_some_iff l k
+
+/-! concrete molecules used by the non-vacuity examples -/
+
+/-- keys 1,2,5 (sparse), a bond, two interactions, a valid cache -/
+def exA : Mol :=
+  { nodes := [(1, { name := some "N", resid := some 3, cg := some 2 }), (2, { name := some "CA" }),
+              (5, { name := some "C", resid := some 4, cg := some 7 })],
+    edges := [(1, 2), (5, 2)],
+    inters := [("bonds", { atoms := [1, 2], params := "p", version := 0 }),
+               ("angles", { atoms := [1, 2, 5], params := "q", version := 1 })],
+    cites := ["paperA"], nrexcl := some 1, maxNode := some 5 }
+
+/-- keys -3, 8, 0 in that order (not sorted), a self loop, cache not set -/
+def exB : Mol :=
+  { nodes := [(-3, { name := some "X", resid := some 1 }), (8, { name := some "Y", cg := some 5 }), (0, {})],
+    edges := [(8, -3), (0, 0), (0, 8)],
+    inters := [("bonds", { atoms := [8, -3], params := "r", version := 0 }),
+               ("constraints", { atoms := [0], params := "s", version := 0 })],
+    cites := ["paperA", "paperB"], nrexcl := some 1, maxNode := none }
+
+/-- `exA` with a WRONG cache (1 instead of 5): violates the invariant -/
+def exStale : Mol := { exA with maxNode := some 1 }
+
+example : exA.Inv := by decide
+example : exB.Inv := by decide
+example : ¬ exStale.Inv := by decide
+example : PoolInv [exA, exB] := by decide
+
+/-! ## 2. The invariant holds after every history -/
+
+/-- the empty pool and a fresh `Molecule(nrexcl=n)` satisfy the invariant -/
+theorem inv_init : PoolInv [] ∧ ∀ n : Option Int, ({ nrexcl := n } : Mol).Inv := by
+  refine ⟨fun m hm => (by cases hm), fun n => ?_⟩
+  apply Mol.inv_of_wf_none _ rfl
+  refine ⟨List.nodup_nil, ?_, ?_⟩
+  · intro e he; cases he
+  · intro ti hti; cases hti
+
+/-- EVERY operation (with every argument, succeeding or failing) preserves the invariant -/
+theorem inv_step (p : Pool) (op : Op) (h : PoolInv p) : PoolInv (step p op).1 := step_inv h op
+
+/-- after ANY sequence of editing operations every member of the pool satisfies the invariant -/
+theorem inv_reachable (ops : List Op) : PoolInv (run [] ops) := run_inv inv_init.1 ops
+
+/-- the first clause of C12, spelled out: after any history every interaction and every bond of
+every molecule refers only to atoms that are present, and keys are distinct -/
+theorem reachable_no_dangling (ops : List Op) (m : Mol) (hm : m ∈ run [] ops) :
+    m.keys.Nodup ∧
+    (∀ e ∈ m.edges, m.hasNode e.1 = true ∧ m.hasNode e.2 = true) ∧
+    (∀ ti ∈ m.inters, ∀ a ∈ ti.2.atoms, m.hasNode a = true) := by
+  obtain ⟨⟨h1, h2, h3⟩, _⟩ := inv_reachable ops m hm
+  refine ⟨h1, ?_, ?_⟩
+  · intro e he; exact ⟨(mem_keys_iff m _).mpr (h2 e he).1, (mem_keys_iff m _).mpr (h2 e he).2⟩
+  · intro ti hti a ha; exact (mem_keys_iff m _).mpr (h3 ti hti a ha)
+
+/-- a non-trivial history: block, bulk add, merge, removal, interactions, copy, subgraph -/
+def exHistory : List Op :=
+  [.newMol (some 1),
+   .fromBlock { nodes := [("N", { resid := some 1 }), ("CA", {}), ("C", {})], edges := [("N", "CA"), ("CA", "C")],
+                inters := [("bonds", ["N", "CA"], "p", 0)], nrexcl := some 1 } 1 0 0,
+   .merge 0 1, .merge 0 1, .addNodes 0 [(5, {}), (6, {}), (40, {})], .merge 0 1,
+   .addInter 0 "angles" [40, 41, 5] "q" 0, .removeNodes 0 [41, 2], .copy 0, .subgraph 0 [6, 40, 6],
+   .addEdge 2 100 6, .removeNode 0 40, .merge 3 2]
+
+example : (run [] exHistory).length = 4 := by decide
+example : ((run [] exHistory)[0]?.map Mol.keys) = some [1, 3, 4, 5, 6, 42, 43] := by decide
+example : PoolInv (run [] exHistory) := by decide
+
+/-! ## 3. Frame: a copy or subgraph can be edited without changing its source -/
+
+/-- an operation on pool member `i` leaves every other member unchanged (and the pool length) -/
+theorem step_frame (p : Pool) (op : Op) (i : Nat) (h : op.target = some i) :
+    (step p op).1.length = p.length ∧ ∀ j, j ≠ i → (step p op).1[j]? = p[j]? :=
+  step_frame_target p op i h
+
+/-- copy / subgraph / newMol / fromBlock only append: all existing members are unchanged -/
+theorem step_frame_new (p : Pool) (op : Op) (h : op.target = none) :
+    (step p op).1.take p.length = p := by
+  rcases step_frame_append p op h with e | ⟨m, e⟩
+  · rw [e]; exact List.take_length
+  · rw [e]; exact List.take_left' rfl
+
+/-- over a whole history: member `i` is unchanged by any sequence of operations none of which
+edits `i` in place — in particular by any editing of its copies and subgraphs, and a copy is
+unchanged by any editing of its source -/
+theorem frame_history (p : Pool) (ops : List Op) (i : Nat) (hi : i < p.length)
+    (h : ∀ op ∈ ops, op.target ≠ some i) : (run p ops)[i]? = p[i]? :=
+  run_frame p ops i h hi
+
+example : (run [exA] [.copy 0, .removeNode 1 2, .addNode 1 9 {}, .merge 1 0])[0]? = some exA := by decide
+example : (run [exA] [.copy 0, .removeNode 1 2, .addNode 1 9 {}, .merge 1 0])[1]? ≠ some exA := by decide
+
+/-- under the invariant the copy has exactly the nodes (with attributes, in order), edges,
+interactions, citations and nrexcl of its source; only the cache is reset -/
+theorem copy_is_equal_content (m : Mol) (h : m.Inv) :
+    m.copy = { m with maxNode := none } ∧
+    m.copy.nodes = m.nodes ∧ m.copy.edges = m.edges ∧ m.copy.inters = m.inters ∧
+    m.copy.cites = m.cites ∧ m.copy.nrexcl = m.nrexcl := by
+  rw [copy_eq h]; exact ⟨rfl, rfl, rfl, rfl, rfl, rfl⟩
+
+example : exB.copy = { exB with maxNode := none } := by decide
+
+/-- content of `m.subgraph ks`: the requested keys in request order without repetition
+(`List.eraseDups`), each with the source's attributes; exactly the source's edges with both end
+points requested and the source's interactions with all atoms requested, in the source's order -/
+theorem subgraph_content (m : Mol) (ks : List Int) (s : Mol) (h : m.subgraph ks = some s) :
+    s.keys = ks.eraseDups ∧
+    (∀ k a, (k, a) ∈ s.nodes ↔ k ∈ ks ∧ lookupAttrs m.nodes k = some a) ∧
+    s.edges = m.edges.filter (fun e => decide (e.1 ∈ ks ∧ e.2 ∈ ks)) ∧
+    s.inters = m.inters.filter (fun ti => decide (∀ a ∈ ti.2.atoms, a ∈ ks)) ∧
+    s.cites = m.cites ∧ s.nrexcl = m.nrexcl := by
+  refine ⟨by rw [subgraph_keys m ks s h, dedupKeys_eq_eraseDups], subgraph_nodes_mem m ks s h, ?_⟩
+  unfold Mol.subgraph at h
+  split at h
+  · cases h
+    refine ⟨?_, ?_, rfl, rfl⟩
+    · apply List.filter_congr; intro e _; simp
+    · apply List.filter_congr; intro ti _; apply Bool.eq_iff_iff.mpr; simp
+  · cases h
+
+/-- with distinct keys the attributes looked up are the source's node entries -/
+theorem lookup_iff_mem (m : Mol) (h : m.keys.Nodup) (k : Int) (a : Attrs) :
+    lookupAttrs m.nodes k = some a ↔ (k, a) ∈ m.nodes :=
+  ⟨lookupAttrs_mem m.nodes k a, lookupAttrs_of_mem m.nodes h k a⟩
+
+/-- `subgraph` succeeds exactly when every requested key is a node -/
+theorem subgraph_ok_iff (m : Mol) (ks : List Int) : (m.subgraph ks).isSome = true ↔ ∀ k ∈ ks, k ∈ m.keys := by
+  unfold Mol.subgraph
+  split
+  · rename_i hall
+    rw [List.all_eq_true] at hall
+    exact ⟨fun _ k hk => (mem_keys_iff m k).mp (hall k hk), fun _ => rfl⟩
+  · rename_i hall
+    constructor
+    · intro h; cases h
+    · intro h; exfalso; apply hall
+      rw [List.all_eq_true]; intro k hk; exact (mem_keys_iff m k).mpr (h k hk)
+
+example : (exA.subgraph [5, 1, 5]).map Mol.keys = some [5, 1] := by decide
+example : (exA.subgraph [5, 1, 5]).map (fun s => s.inters.length) = some 0 := by decide
+example : (exA.subgraph [2, 1]).map (fun s => (s.edges, s.inters.length)) = some ([(1, 2)], 1) := by decide
+
+/-! ## 4. Error outcomes leave the state unchanged -/
+
+/-- whatever the operation: if it does not report `ok`, the whole pool is unchanged
+(`add_or_replace_interaction` included: it can only fail before it changes anything) -/
+theorem error_no_change (p : Pool) (op : Op) (h : (step p op).2 ≠ .ok) : (step p op).1 = p :=
+  step_err p op h
+
+/-- the error conditions do raise: removeNode of an absent key, addInter with an unknown atom,
+removeInter of an absent interaction, subgraph with an unknown key, merge with different nrexcl,
+fromBlock with a dangling name -/
+theorem error_raised (p : Pool) (i : Nat) (m : Mol) (hm : p[i]? = some m) :
+    (∀ k, k ∉ m.keys → step p (.removeNode i k) = (p, .nxerror)) ∧
+    (∀ ty atoms pr v, (∃ a ∈ atoms, a ∉ m.keys) → step p (.addInter i ty atoms pr v) = (p, .keyerror)) ∧
+    (∀ ty atoms v, removeFirst m.inters ty atoms v = none → step p (.removeInter i ty atoms v) = (p, .keyerror)) ∧
+    (∀ ks, (∃ k ∈ ks, k ∉ m.keys) → step p (.subgraph i ks) = (p, .keyerror)) ∧
+    (∀ j o, j ≠ i → p[j]? = some o → mergeNrexcl m o ≠ o.nrexcl → step p (.merge i j) = (p, .valueerror)) ∧
+    (∀ b ao ro co, b.toMolecule ao ro co = none → step p (.fromBlock b ao ro co) = (p, .keyerror)) := by
+  refine ⟨?_, ?_, ?_, ?_, ?_, ?_⟩
+  · intro k hk
+    have : ¬ m.hasNode k = true := fun e => hk ((mem_keys_iff m k).mp e)
+    simp only [step, onMol, hm, this, setAt, Bool.false_eq_true, ↓reduceIte, set_self p i m hm]
+  · intro ty atoms pr v ⟨a, ha, hk⟩
+    have : ¬ atoms.all m.hasNode = true := by
+      intro e; rw [List.all_eq_true] at e; exact hk ((mem_keys_iff m a).mp (e a ha))
+    simp only [step, onMol, hm, Mol.addInter, this, setAt, Bool.false_eq_true, ↓reduceIte, set_self p i m hm]
+  · intro ty atoms v hr
+    simp only [step, onMol, hm, Mol.removeInter, hr, setAt, set_self p i m hm]
+  · intro ks ⟨k, hk, hkm⟩
+    have : ¬ ks.all m.hasNode = true := by
+      intro e; rw [List.all_eq_true] at e; exact hkm ((mem_keys_iff m k).mp (e k hk))
+    simp only [step, hm, Mol.subgraph, this, Bool.false_eq_true, ↓reduceIte]
+  · intro j o hj ho hn
+    have hij : ¬ i = j := fun e => hj e.symm
+    simp only [step, hij, ↓reduceIte, hm, ho, merge_err hn, setAt, set_self p i m hm]
+  · intro b ao ro co hb
+    simp only [step, hb]
+
+example : step [exA] (.removeNode 0 3) = ([exA], .nxerror) := by decide
+example : step [exA] (.addInter 0 "bonds" [1, 4] "p" 0) = ([exA], .keyerror) := by decide
+example : step [exA, { exB with nrexcl := some 3 }] (.merge 0 1) = ([exA, { exB with nrexcl := some 3 }], .valueerror) := by
+  decide
+
+/-! ## 5. Node removal drops the interactions and bonds of the removed atoms -/
+
+/-- `remove_node` (present key) and `remove_nodes_from` replace the target by `dropNodes` -/
+theorem remove_step (p : Pool) (i : Nat) (m : Mol) (hm : p[i]? = some m) :
+    (∀ ks, step p (.removeNodes i ks) = (p.set i (m.dropNodes ks), .ok)) ∧
+    (∀ k, k ∈ m.keys → step p (.removeNode i k) = (p.set i (m.dropNodes [k]), .ok)) := by
+  constructor
+  · intro ks; simp only [step, onMol, hm, setAt]
+  · intro k hk
+    have := (mem_keys_iff m k).mpr hk
+    simp only [step, onMol, hm, setAt, this, ↓reduceIte]
+
+/-- after removing the keys `ks`: the remaining nodes, edges and interactions are exactly those of
+the source that do not mention a removed key, in the source's order; so no interaction and no
+bond mentions a removed key and nothing else is lost -/
+theorem remove_drops_interactions (m : Mol) (ks : List Int) :
+    (m.dropNodes ks).nodes = m.nodes.filter (fun p => decide (p.1 ∉ ks)) ∧
+    (m.dropNodes ks).edges = m.edges.filter (fun e => decide (e.1 ∉ ks ∧ e.2 ∉ ks)) ∧
+    (m.dropNodes ks).inters = m.inters.filter (fun ti => decide (∀ a ∈ ti.2.atoms, a ∉ ks)) ∧
+    (∀ ti ∈ (m.dropNodes ks).inters, ∀ a ∈ ti.2.atoms, a ∉ ks) ∧
+    (∀ e ∈ (m.dropNodes ks).edges, e.1 ∉ ks ∧ e.2 ∉ ks) ∧
+    (∀ k ∈ (m.dropNodes ks).keys, k ∉ ks) ∧
+    (m.dropNodes ks).cites = m.cites ∧ (m.dropNodes ks).nrexcl = m.nrexcl := by
+  have e1 : (m.dropNodes ks).nodes = m.nodes.filter (fun p => decide (p.1 ∉ ks)) := by
+    unfold Mol.dropNodes; apply List.filter_congr; intro x _; simp
+  have e2 : (m.dropNodes ks).edges = m.edges.filter (fun e => decide (e.1 ∉ ks ∧ e.2 ∉ ks)) := by
+    unfold Mol.dropNodes; apply List.filter_congr; intro x _; simp
+  have e3 : (m.dropNodes ks).inters = m.inters.filter (fun ti => decide (∀ a ∈ ti.2.atoms, a ∉ ks)) := by
+    unfold Mol.dropNodes; apply List.filter_congr; intro x _
+    cases hx : interMentions ks x.2 with
+    | false => simpa using (interMentions_false_iff ks x.2).mp hx
+    | true =>
+      have : ¬ ∀ a ∈ x.2.atoms, a ∉ ks := fun h => by
+        rw [(interMentions_false_iff ks x.2).mpr h] at hx; cases hx
+      simp only [Bool.not_true]; exact (decide_eq_false this).symm
+  refine ⟨e1, e2, e3, ?_, ?_, ?_, rfl, rfl⟩
+  · intro ti hti; rw [e3] at hti; simpa using (List.mem_filter.mp hti).2
+  · intro e he; rw [e2] at he; simpa using (List.mem_filter.mp he).2
+  · intro k hk
+    rw [dropNodes_keys] at hk; simpa using (List.mem_filter.mp hk).2
+
+example : (exA.dropNodes [5, 7]).inters = [("bonds", { atoms := [1, 2], params := "p", version := 0 })] := by decide
+example : (exA.dropNodes [5, 7]).edges = [(1, 2)] := by decide
+
+/-! ## 6. Merge (`self.merge_molecule(other)`), under the invariant of both operands -/
+
+/-- the offsets are those of the true highest-key node: `offset` is the highest key, and `shiftBy`
+is (resid, charge group) of THE node with that key, default 1 each; all 0 on an empty molecule -/
+theorem offset_shift_spec (self : Mol) :
+    (self.nodes = [] → self.offset = 0 ∧ self.shiftBy = (0, 0)) ∧
+    (self.nodes ≠ [] → self.offset ∈ self.keys ∧ (∀ k ∈ self.keys, k ≤ self.offset) ∧
+      ∃ a, lookupAttrs self.nodes self.offset = some a ∧ (self.offset, a) ∈ self.nodes ∧
+        self.shiftBy = (a.resid.getD 1, a.cg.getD 1)) := by
+  constructor
+  · intro h; simp [Mol.offset, Mol.shiftBy, h]
+  · intro h
+    have hm := (maxKey_eq_some_iff _ _).mp (offset_spec h)
+    obtain ⟨a, ha⟩ := Option.isSome_iff_exists.mp ((lookupAttrs_isSome self.nodes self.offset).mpr hm.1)
+    refine ⟨hm.1, hm.2, a, ha, lookupAttrs_mem _ _ _ ha, ?_⟩
+    simp only [Mol.shiftBy, if_neg h, ha]
+
+/-- a merge never takes the `KeyError` branches (stale cache, dangling atom of the newcomer):
+it fails exactly on an nrexcl mismatch, with ValueError -/
+theorem merge_outcome (self other : Mol) (hs : self.Inv) (ho : other.Inv) :
+    (self.merge other).2 = (if mergeNrexcl self other = other.nrexcl then .ok else .valueerror) ∧
+    ((self.merge other).2 = .ok ∨ (self.merge other).2 = .valueerror) := by
+  by_cases hn : mergeNrexcl self other = other.nrexcl
+  · rw [merge_eq hs ho hn, if_pos hn]; exact ⟨rfl, Or.inl rfl⟩
+  · rw [merge_err hn, if_neg hn]; exact ⟨rfl, Or.inr rfl⟩
+
+/-- every node of `self` is kept as it was (same position, same attributes); the newcomer's
+nodes follow in their order, the i-th with key offset + 1 + i -/
+theorem merge_keeps_nodes (self other : Mol) (hs : self.Inv) (ho : other.Inv)
+    (hok : (self.merge other).2 = .ok) :
+    (self.merge other).1.nodes.take self.nodes.length = self.nodes ∧
+    (self.merge other).1.nodes.length = self.nodes.length + other.nodes.length ∧
+    ∀ i, i < other.nodes.length →
+      ((self.merge other).1.nodes[self.nodes.length + i]?).map Prod.fst = some (self.offset + 1 + (i : Int)) := by
+  rw [merge_ok_eq hs ho hok, mergeResult_nodes _ _ _ _ ho.1]
+  refine ⟨List.take_left' rfl, by simp [newNodes, enumFrom_length], ?_⟩
+  intro i hi
+  rw [List.getElem?_append_right (by omega)]
+  simp only [Nat.add_sub_cancel_left, newNodes, enumFrom_getElem?, List.getElem?_map,
+    List.getElem?_eq_getElem hi, Option.map_some]
+
+/-- every new key is greater than every key of `self`; hence no node of `self` is overwritten or
+dropped and the keys of the result are distinct -/
+theorem merge_fresh (self other : Mol) (hs : self.Inv) (ho : other.Inv)
+    (hok : (self.merge other).2 = .ok) :
+    (∀ k ∈ self.keys, ∀ i : Nat, k < self.offset + 1 + (i : Int)) ∧
+    (∀ p ∈ self.nodes, p ∈ (self.merge other).1.nodes) ∧
+    (self.merge other).1.keys.Nodup := by
+  refine ⟨?_, ?_, ?_⟩
+  · intro k hk i; have := offset_ge k hk; omega
+  · intro p hp
+    rw [merge_ok_eq hs ho hok, mergeResult_nodes _ _ _ _ ho.1]
+    exact List.mem_append_left _ hp
+  · exact (merge_inv hs ho).1.1
+
+/-- the i-th new node is the i-th node of the newcomer with resid and charge group shifted by
+those of `self`'s highest-key node (default 1; 0 if `self` is empty), the same shift for every
+node; the name is unchanged -/
+theorem merge_shift_uniform (self other : Mol) (hs : self.Inv) (ho : other.Inv)
+    (hok : (self.merge other).2 = .ok) (i : Nat) (hi : i < other.nodes.length) :
+    (self.merge other).1.nodes[self.nodes.length + i]? =
+      some (self.offset + 1 + (i : Int), (other.nodes[i]).2.shift self.shiftBy.1 self.shiftBy.2) ∧
+    ((other.nodes[i]).2.shift self.shiftBy.1 self.shiftBy.2).name = (other.nodes[i]).2.name ∧
+    ((other.nodes[i]).2.shift self.shiftBy.1 self.shiftBy.2).resid =
+      some ((other.nodes[i]).2.resid.getD 1 + self.shiftBy.1) ∧
+    ((other.nodes[i]).2.shift self.shiftBy.1 self.shiftBy.2).cg =
+      some ((other.nodes[i]).2.cg.getD 1 + self.shiftBy.2) := by
+  refine ⟨?_, rfl, rfl, rfl⟩
+  rw [merge_ok_eq hs ho hok, mergeResult_nodes _ _ _ _ ho.1]
+  rw [List.getElem?_append_right (by omega)]
+  simp only [Nat.add_sub_cancel_left, newNodes, enumFrom_getElem?, List.getElem?_map,
+    List.getElem?_eq_getElem hi, Option.map_some]
+
+/-- the correspondence sends the newcomer's i-th node to the i-th new key, and is injective on
+the newcomer's keys -/
+theorem merge_corr (self other : Mol) (ho : other.Inv) :
+    (∀ i (hi : i < other.nodes.length),
+        corr other.keys self.offset (other.nodes[i]).1 = self.offset + 1 + (i : Int)) ∧
+    (∀ u ∈ other.keys, ∀ v ∈ other.keys, corr other.keys self.offset u = corr other.keys self.offset v → u = v) := by
+  constructor
+  · intro i hi
+    have hl : i < other.keys.length := by simpa [Mol.keys] using hi
+    have := corr_getElem other.keys self.offset ho.1.1 i hl
+    simpa [Mol.keys] using this
+  · intro u hu v hv; exact corr_inj other.keys self.offset u v hu hv
+
+/-- the interactions of the result are those of `self` followed by those of the newcomer with
+their atoms renamed through the key correspondence, in order, nothing else changed -/
+theorem merge_keeps_interactions (self other : Mol) (hs : self.Inv) (ho : other.Inv)
+    (hok : (self.merge other).2 = .ok) :
+    (self.merge other).1.inters =
+      self.inters ++ other.inters.map
+        (fun ti => (ti.1, { ti.2 with atoms := ti.2.atoms.map (corr other.keys self.offset) })) := by
+  rw [merge_ok_eq hs ho hok, mergeResult_inters]; rfl
+
+/-- the bonds of the result are exactly those of `self` and the renamed bonds of the newcomer
+(the code skips the newcomer's self loops `u = u`; no other bond is dropped or invented) -/
+theorem merge_keeps_edges (self other : Mol) (hs : self.Inv) (ho : other.Inv)
+    (hok : (self.merge other).2 = .ok) (a b : Int) :
+    (self.merge other).1.hasEdge a b = true ↔
+      self.hasEdge a b = true ∨
+      ∃ e ∈ other.edges, e.1 ≠ e.2 ∧
+        ((a = corr other.keys self.offset e.1 ∧ b = corr other.keys self.offset e.2) ∨
+         (a = corr other.keys self.offset e.2 ∧ b = corr other.keys self.offset e.1)) := by
+  rw [merge_ok_eq hs ho hok, mergeResult_hasEdge]
+  apply or_congr Iff.rfl
+  constructor
+  · rintro ⟨e', he', h⟩
+    obtain ⟨e, he, hne, rfl⟩ := (mem_renamedEdges _ _ _ _).mp he'
+    exact ⟨e, he, fun eq => hne (by rw [eq]), h⟩
+  · rintro ⟨e, he, hne, h⟩
+    refine ⟨(corr other.keys self.offset e.1, corr other.keys self.offset e.2), ?_, h⟩
+    apply (mem_renamedEdges _ _ _ _).mpr
+    exact ⟨e, he, fun eq => hne (corr_inj _ _ _ _ (ho.1.2.1 e he).1 (ho.1.2.1 e he).2 eq), rfl⟩
+
+/-- nrexcl and the citation set of the result -/
+theorem merge_keeps_meta (self other : Mol) (hs : self.Inv) (ho : other.Inv)
+    (hok : (self.merge other).2 = .ok) :
+    (self.merge other).1.nrexcl = other.nrexcl ∧
+    (self.merge other).1.cites = unionSet self.cites other.cites ∧
+    (∀ c, c ∈ (self.merge other).1.cites ↔ c ∈ self.cites ∨ c ∈ other.cites) := by
+  rw [merge_ok_eq hs ho hok, mergeResult_nrexcl, mergeResult_cites]
+  refine ⟨rfl, rfl, ?_⟩
+  intro c
+  simp only [unionSet, List.mem_append, List.mem_filter, Bool.not_eq_true', List.contains_eq_mem,
+    decide_eq_false_iff_not]
+  by_cases h : c ∈ self.cites <;> simp [h]
+
+/-- the F-C12-1 repair: after a successful merge the cache IS the highest key of the result, so
+the next merge reads a valid cache and needs no scan -/
+theorem merge_cache (self other : Mol) (hs : self.Inv) (ho : other.Inv)
+    (hok : (self.merge other).2 = .ok) (hne : (self.merge other).1.nodes ≠ []) :
+    (self.merge other).1.maxNode = some (self.offset + (other.nodes.length : Int)) ∧
+    maxKey (self.merge other).1.keys = (self.merge other).1.maxNode ∧
+    (self.merge other).1.lastKey = some (self.merge other).1.offset := by
+  have hinv := merge_inv hs ho
+  rw [merge_ok_eq hs ho hok] at hne hinv ⊢
+  refine ⟨rfl, ?_, lastKey_eq hinv.2 hne⟩
+  rw [mergeResult_maxKey _ _ _ ho.1 hne]; rfl
+
+example : (exA.merge exB).2 = .ok := by decide
+example : (exA.merge exB).1.keys = [1, 2, 5, 6, 7, 8] := by decide
+example : exA.offset = 5 ∧ exA.shiftBy = (4, 7) := by decide
+example : (exA.merge exB).1.inters.map (fun ti => ti.2.atoms) = [[1, 2], [1, 2, 5], [7, 6], [8]] := by decide
+example : (exA.merge exB).1.edges = [(1, 2), (5, 2), (7, 6), (8, 7)] := by decide
+example : (exA.merge exB).1.maxNode = some 8 := by decide
+
+/-- why the invariant is needed (and what the code did before the F-C12-1 repair, when the cache
+went stale): with a WRONG cache value (1 instead of 5) the newcomer's three nodes get the keys
+2, 3, 4; key 2 exists, so node 2 of `self` is overwritten (its name "CA" is replaced by the
+newcomer's "X") and the result has 5 nodes instead of 6 -/
+theorem stale_cache_overwrites_witness :
+    ¬ exStale.Inv ∧ (exStale.merge exB).2 = .ok ∧
+    (exStale.merge exB).1.keys = [1, 2, 5, 3, 4] ∧
+    lookupAttrs exStale.nodes 2 = some { name := some "CA" } ∧
+    (lookupAttrs (exStale.merge exB).1.nodes 2).map Attrs.name = some (some "X") := by
+  decide
+
+/-! ## 7. `Block.to_molecule` -/
+
+/-- the molecule made from a block satisfies the invariant -/
+theorem to_molecule_inv (b : Block) (atomOff residOff cgOff : Int) (m : Mol)
+    (h : b.toMolecule atomOff residOff cgOff = some m) : m.Inv :=
+  toMolecule_inv' b atomOff residOff cgOff m h
+
+/-- its nodes are the block's nodes in order with keys atomOff, atomOff + 1, …; resid and charge
+group are shifted uniformly by the given offsets; citations and nrexcl are the block's -/
+theorem to_molecule_shift (b : Block) (atomOff residOff cgOff : Int) (m : Mol)
+    (h : b.toMolecule atomOff residOff cgOff = some m) :
+    m.nodes.length = b.nodes.length ∧
+    (∀ i : Nat, m.nodes[i]? = (b.nodes[i]?).map (fun p => (atomOff + (i : Int), p.2.shift residOff cgOff))) ∧
+    m.cites = b.cites ∧ m.nrexcl = b.nrexcl := by
+  refine ⟨?_, ?_, ?_, ?_⟩
+  · rw [toMolecule_nodes b _ _ _ m h]; simp [Block.baseNodes, enumFrom_length]
+  · intro i; rw [toMolecule_nodes b _ _ _ m h]; exact baseNodes_getElem? b _ _ _ i
+  · obtain ⟨inters, edges, _, _, rfl⟩ := toMolecule_eq b _ _ _ m h
+    rw [addEdges_cites]; rfl
+  · obtain ⟨inters, edges, _, _, rfl⟩ := toMolecule_eq b _ _ _ m h
+    rw [addEdges_nrexcl]; rfl
+
+def exBlock : Block :=
+  { nodes := [("N", { resid := some 1 }), ("CA", {}), ("C", { cg := some 2 })], edges := [("N", "CA"), ("C", "CA")],
+    inters := [("bonds", ["N", "CA"], "p", 0), ("angles", ["C", "CA", "N"], "q", 0)], nrexcl := some 1 }
+
+example : ((exBlock.toMolecule 5 2 3).map Mol.keys) = some [5, 6, 7] := by decide
+example : ((exBlock.toMolecule 5 2 3).map (fun m => m.nodes.map (fun p => (p.2.resid, p.2.cg)))) =
+    some [(some 3, some 4), (some 3, some 4), (some 3, some 5)] := by decide
+example : ((exBlock.toMolecule 5 2 3).map (fun m => (m.edges, m.inters.map (fun ti => ti.2.atoms)))) =
+    some ([(5, 6), (7, 6)], [[5, 6], [7, 6, 5]]) := by decide
+example : ({ exBlock with edges := [("N", "ZZ")] } : Block).toMolecule 5 2 3 = none := by decide
+
 end C12
